@@ -1267,3 +1267,58 @@ impl Family for F8b {
         Case { u, p, tag: "F8b".into() }
     }
 }
+
+/// F10 "late reveal": names a, q, z, p x versions {1, 2}; root requires a (and, for the second root,
+/// q as well). a_i requires q and z (in that order, so that on a tie q is decided first), z_i requires
+/// p, p_i requires or constrains q: the package p is first seen in a later encoding round than the
+/// one in which q was decided. Slots a_i -> q, a_i -> z, z_i -> p take one of {nothing, {1}, {2},
+/// {1,2}}; p_i -> q one of {nothing, requires {1}, {2}, {1,2}, constrains {1}, constrains {2}}.
+/// Meant to be combined with per-package availability hints (a hinted p is encoded while it is still
+/// undecided, under whatever the decisions for q happen to be at that moment).
+pub struct F10;
+
+impl F10 {
+    fn slots() -> Vec<(usize, usize, usize, u64)> {
+        // (source name, source version, destination name, number of options); names: a=0 q=1 z=2 p=3
+        let mut v = vec![];
+        for ver in 1..=2 {
+            v.push((0, ver, 1, 4));
+            v.push((0, ver, 2, 4));
+            v.push((2, ver, 3, 4));
+            v.push((3, ver, 1, 6));
+        }
+        v
+    }
+}
+
+impl Family for F10 {
+    fn name(&self) -> String {
+        "F10 late reveal 4x2 (a -> q, z; z -> p; p -> requires/constrains q)".into()
+    }
+    fn len(&self) -> u64 {
+        2 * Self::slots().iter().map(|s| s.3).product::<u64>()
+    }
+    fn get(&self, mut idx: u64) -> Case {
+        let g = Grid { label: "F10".into(), n_names: 4, n_vers: 2, edges: vec![], root: RootMenu::AnyVersion, fixed: vec![] };
+        let mut u = g.base();
+        let root2 = idx % 2 == 1;
+        idx /= 2;
+        for (sn, sv, dn, n) in Self::slots() {
+            let o = idx % n;
+            idx /= n;
+            let s = g.solv_id(sn, sv) as usize;
+            match o {
+                0 => {}
+                1..=3 => u.solvs[s].deps.push_req(Req::Single(g.vs_id(dn, o as u32))),
+                4 => u.solvs[s].deps.push_con(g.vs_id(dn, 1)),
+                _ => u.solvs[s].deps.push_con(g.vs_id(dn, 2)),
+            }
+        }
+        let mut p = Problem::default();
+        p.reqs.push(Req::Single(g.vs_id(0, 3)));
+        if root2 {
+            p.reqs.push(Req::Single(g.vs_id(1, 3)));
+        }
+        Case { u, p, tag: "F10".into() }
+    }
+}
